@@ -700,6 +700,24 @@ func TestVerifPlanBounded(t *testing.T) {
 			sharedClient = nil
 		}
 	}
+	// one client, one plan, the same first block with different lengths (two
+	// integrations with different stop settings): a cached longer segment must
+	// not be served for a shorter request, nor the other way round
+	for _, pl := range plans {
+		for _, lens := range [][2]uint64{{2, 1}, {1, 2}, {3, 2}} {
+			sharedClient = jrpc2.New(ts.URL)
+			cases++
+			for _, l := range []uint64{lens[0], lens[1], lens[0]} {
+				for _, msg := range runSetN(t, ts, pl.mode, pl.set, l, false) {
+					nfail++
+					if nfail <= 12 {
+						fmt.Printf("BOUNDED-FAIL shared client, plan %v, lengths %v, request of %d blocks: %s\n", pl.set, lens, l, msg)
+					}
+				}
+			}
+			sharedClient = nil
+		}
+	}
 	fmt.Printf("BOUNDED cases=%d failures=%d exhaustive=true\n", cases, nfail)
 	if nfail > 0 {
 		t.Fail()
